@@ -601,9 +601,14 @@ def gen_particles(g, lin, circ, N):
 
 def gen_logweights(g, N, ties=True):
     r = g.r
-    style = r.choice(["uniform", "random", "random", "spread", "onehot", "zero"])
+    style = r.choice(["uniform", "random", "random", "spread", "onehot", "zero", "plateau"])
     if style == "uniform":
         w = [1.0] * N
+    elif style == "plateau":
+        # class q: first, second and last weight equal, a different (larger or smaller) one strictly between
+        w = [1.0] * N
+        if N >= 4:
+            w[r.randrange(2, N - 1)] = r.choice([3.0, 0.25, 1.0 + 2.0 ** -40])
     elif style == "spread":
         w = [10.0 ** r.uniform(-300, 0) for _ in range(N)]
     elif style == "onehot":
@@ -1146,6 +1151,7 @@ def run(ctx):
         "evaluations": len(cases), "distinct_nontrivial": nontrivial,
         "rule": "buffer: for every initial window request 0..40 x fill level 0..40 x %s second window request: set, fill with distinct elements, read, resize, read, add two, read, clear, read, add, read (exhaustive), plus decrease/increase chains and random operation sequences incl. unsigned extremes; "
                 "extraction: weight probes (unit vectors through the mode of a two-particle set) for the 3 windowed families x windows 2..30 x every fill level; all 12 methods x both overloads on 3 layouts; seeded random call sequences of length 20..60 mixing setMethod / setWindow (incl. <= 0, 1, 2, 30, 31, 40) / clear / move / extract(2 args) / extract(5 args) with 1..6 distinct particles, 0..3 linear and 0..2 circular rows, exact ties of the maximal weight / map score, zero likelihoods and transition entries, angles outside (-pi, pi]; "
+                "round 4, enumerated in every run: window enlarged after the storage has wrapped around at every phase (w0 in 2..9, pushes w0..3*w0-1, to w0+1 / w0+3 / 2*w0+1 / 30, through setMobileAverageWindowSize, setHistorySize and increaseHistorySize chains, every later push read back until refilled); one base estimate of 1e12 / -1e15 / 1e17 at every position of windows 2, 3, 5, 8, 30 followed by more than two windows of ordinary estimates, all nine windowed methods; histories of 70 / 140 / 300 estimates without a clear; particle sets of 63..1025 columns (multiples of 64 / 128 / 256 and neighbours) for mean / mode / map with the maximum at the end, at a chunk boundary and at the start; rows of scale 1e15 next to rows of scale 1; window requests over the whole range of int; plateau weights (first = second = last, a different one between); "
                 "non-trivial = more than a single call; distinct = distinct case lines" % ("16 boundary values of the" if quick else "each of 0..40 as"),
         "samples": [cases[0][0][:300], probe_case(2, 3)[:300], hb_grid_case(10, 4, 3), (ee_lines[0][:600] if ee_lines else "")],
         "exhaustive": True,
